@@ -556,13 +556,15 @@ impl SyncResponder {
         provider: &mut impl StorageProvider,
     ) -> Result<usize, SyncError> {
         if self.next_send >= self.to_send.len() {
-            self.state = SyncResponderState::Idle;
             let message = SyncResponseMessage::SyncEnd {
                 session_id: self.session_id()?,
                 max_index: self.message_index as u64,
                 remaining: false,
             };
+            // Don't end the session until the end message fits, so the
+            // caller can retry with a larger buffer without losing it.
             let length = Self::write(target, message)?;
+            self.state = SyncResponderState::Idle;
             return Ok(length);
         }
 
